@@ -1,5 +1,5 @@
 (* C07 - find -print0 paths are byte-exact and survive the pipe into xargs -0. *)
-Require Import PathModel Paths PathsProofs XRead XReadSpec PrintPipe.
+Require Import PathModel Paths PathsProofs XRead XReadSpec PrintPipe PipeE2E.
 From Coq Require Import List Arith Bool.
 Import ListNotations.
 
@@ -16,6 +16,16 @@ Theorem C07_roundtrip : forall d ps chunks, Forall (good d) ps ->
   concat chunks = concat (map (print_with d) ps) -> bd_read d chunks = ps.
 Proof. exact print_read_roundtrip. Qed.
 Print Assumptions C07_roundtrip.
+
+(* the two together, "find ... -print0 | xargs -0 CMD delivers every matched path to CMD exactly once": for starting points and names
+   that are not empty and hold neither '/' (names only) nor the terminator (NUL; or newline, for -print | xargs -d '\n'), what the
+   reader returns is the list of the matched paths - one argument per entry, as spelled, in order, for every chunking of the pipe *)
+Theorem C07_pipeline : forall d (entries : list (list nat * list (list nat))) chunks, d <> SL ->
+  Forall (fun e => good d (fst e) /\ Forall plainname (snd e) /\ Forall (fun n => ~ In d n) (snd e)) entries ->
+  concat chunks = concat (map (fun e => print_with d (entry_path (fst e) (snd e))) entries) ->
+  bd_read d chunks = map (fun e => entry_path (fst e) (snd e)) entries.
+Proof. exact pipeline_exact. Qed.
+Print Assumptions C07_pipeline.
 
 (* delivery to the command exactly once is C04_batching's [concat bs = args] applied to these arguments *)
 
